@@ -78,4 +78,108 @@ theorem unreadable_file_is_diagnostic (fuel : Nat) :
     (cli fuel none).errKind = some .io ∧ (cli fuel none).exitCode = 255 :=
   ⟨rfl, rfl, rfl, rfl⟩
 
+/-! ## forms in order; nothing after the first failing form -/
+
+/-- THE LIBRARY INTERFACE EVALUATES THE FORMS IN ORDER. `evalText` is the fold `runText`: the
+top-level data the reader finds (`formsOf`), each turned into a statement in the current syntax
+scope and evaluated by `eval_ast` from the state its predecessor left, stopping at the first
+error; the reader's own error, if any, comes after the forms read before it. (The model's
+reading fuel is never exhausted: every datum consumes a token.) -/
+theorem evalText_eq_fold (fuel : Nat) (st : State) (text : List Char) :
+    evalText fuel st text = runText fuel st text :=
+  evalText_eq_runText fuel st text
+
+/-- exit status 0 exactly when EVERY form succeeded (and the reader reached the end of the text) -/
+theorem exit_zero_iff_all_ok (fuel : Nat) (text : String) :
+    (cli fuel (some text)).exitCode = 0 ↔
+      (∃ v, (runForms fuel (default_ false) (formsOf text.toList).1 none).1 = .ok v) ∧
+        (formsOf text.toList).2 = none := by
+  rw [exit_zero_iff_ok, evalText_eq_fold]
+  unfold runText
+  generalize runForms fuel (default_ false) (formsOf text.toList).1 none = y
+  obtain ⟨r, st'⟩ := y
+  cases r with
+  | error e => exact ⟨fun ⟨_, h⟩ => (by cases h), fun ⟨⟨_, h⟩, _⟩ => (by cases h)⟩
+  | ok v =>
+    cases (formsOf text.toList).2 with
+    | none => exact ⟨fun _ => ⟨⟨v, rfl⟩, rfl⟩, fun _ => ⟨v, rfl⟩⟩
+    | some e => exact ⟨fun ⟨_, h⟩ => (by cases h), fun ⟨_, h⟩ => (by cases h)⟩
+
+/-- NOTHING IS EVALUATED AFTER THE FIRST ERROR: when the forms `pre` succeed and the next form `d`
+fails, the outcome and the final state are those of `d`'s failure — whatever follows (`post`). -/
+theorem stops_at_first_error (fuel : Nat) (st st₁ st₂ : State) (pre post : List Datum) (d : Datum)
+    (last v : Option Value) (e : SErr)
+    (hpre : runForms fuel st pre last = (.ok v, st₁)) (hfail : evalForm fuel st₁ d = (.error e, st₂)) :
+    runForms fuel st (pre ++ d :: post) last = (.error e, st₂) := by
+  rw [runForms_append, hpre]
+  simp only [runForms, hfail]
+
+/-- OUTPUT ONLY GROWS: a form — whether it succeeds or fails, whatever it evaluates, imports or
+defines — only adds to what has been written (`Store.out` is extended at the front, most recent
+first); likewise a run of forms and a whole text. -/
+theorem out_monotone (fuel : Nat) (st : State) :
+    (∀ d, OutExt st.store (evalForm fuel st d).2.store) ∧
+    (∀ ds last, OutExt st.store (runForms fuel st ds last).2.store) ∧
+    (∀ text, OutExt st.store (evalText fuel st text).2.store) := by
+  refine ⟨fun d => (evalForm_out fuel st d).1, fun ds last => runForms_out fuel ds st last, fun text => ?_⟩
+  rw [evalText_eq_fold]
+  unfold runText
+  have h := runForms_out fuel (formsOf text).1 st none
+  generalize runForms fuel st (formsOf text).1 none = y at h
+  obtain ⟨r, st'⟩ := y
+  cases r with
+  | error e => exact h
+  | ok v => cases (formsOf text).2 <;> exact h
+
+/-- STANDARD OUTPUT AT A FAILURE. When the forms before the failing one (`pre`) succeed, leaving
+state `st₁`, and the next form fails, leaving `st₂`: `ruschm FILE` has written exactly what the
+forms before it wrote, followed by what the failing form itself wrote before it failed (`part`,
+its completed effects) — nothing of the later forms; the diagnostic is that form's error. -/
+theorem stdout_is_output_before_failure (fuel : Nat) (text : String) (pre post : List Datum) (d : Datum)
+    (v : Option Value) (st₁ st₂ : State) (e : Err) (loc : Loc)
+    (hforms : (formsOf text.toList).1 = pre ++ d :: post)
+    (hpre : runForms fuel (default_ false) pre none = (.ok v, st₁))
+    (hfail : evalForm fuel st₁ d = (.error (e, loc), st₂)) :
+    ∃ part : List String, st₂.store.out = part ++ st₁.store.out ∧
+      (cli fuel (some text)).stdout = String.join st₁.store.out.reverse ++ String.join part.reverse ∧
+      (cli fuel (some text)).diag = some loc ∧ (cli fuel (some text)).errKind = some e ∧
+      (cli fuel (some text)).exitCode = 255 := by
+  have hout := (evalForm_out fuel st₁ d).1
+  rw [hfail] at hout
+  obtain ⟨part, hp⟩ := hout
+  refine ⟨part, hp, ?_⟩
+  have hrun : evalText fuel (default_ false) text.toList = (.error (e, loc), st₂) := by
+    rw [evalText_eq_fold]
+    unfold runText
+    rw [hforms, stops_at_first_error fuel _ st₁ st₂ pre post d none v (e, loc) hpre hfail]
+  rw [cli_some, hrun]
+  exact ⟨outText_ext hp, rfl, rfl, rfl⟩
+
+/-- the reader's error (an unbalanced parenthesis, a bad token, …) comes after every form read
+before it has been evaluated: standard output is what those forms wrote -/
+theorem stdout_at_reader_error (fuel : Nat) (text : String) (v : Option Value) (st₁ : State) (e : Err) (loc : Loc)
+    (hrun : runForms fuel (default_ false) (formsOf text.toList).1 none = (.ok v, st₁))
+    (herr : (formsOf text.toList).2 = some (e, loc)) :
+    (cli fuel (some text)).stdout = String.join st₁.store.out.reverse ∧
+      (cli fuel (some text)).diag = some loc ∧ (cli fuel (some text)).errKind = some e ∧
+      (cli fuel (some text)).exitCode = 255 := by
+  have h : evalText fuel (default_ false) text.toList = (.error (e, loc), st₁) := by
+    rw [evalText_eq_fold]
+    unfold runText
+    rw [hrun, herr]
+  rw [cli_some, h]
+  exact ⟨rfl, rfl, rfl, rfl⟩
+
+section Example
+/-- the file `)`: the reader fails at line 1, column 2 — one syntax diagnostic there, status 255,
+nothing written -/
+example (fuel : Nat) : (cli fuel (some ")")).exitCode = 255 ∧ (cli fuel (some ")")).diag = some (some (1, 2)) ∧
+    (cli fuel (some ")")).errKind = some .syntax ∧ (cli fuel (some ")")).stdout = "" := by
+  have h : ")".toList = [')'] := by decide
+  rw [cli_some, h, evalText_rparen]
+  exact ⟨rfl, rfl, rfl, rfl⟩
+
+example (fuel : Nat) : (cli fuel none).exitCode = 255 := (unreadable_file_is_diagnostic fuel).2.2.2
+end Example
+
 end Ruschm.C17
